@@ -7,7 +7,7 @@ package util
 // GetNode returns a node with that hash. Then whole tries built from operation histories are read
 // back from each store kind and must re-compute to the root they were saved under.
 // property: C14
-// scope: leaf/extension paths from {"", "1", "0a", "3a3a" (hex of ':'), 31 nibbles}, values from {nil, empty, "v", ":", "a:b::", "\x00\xff:\n", 300 bytes}, branches with every child subset of size 0,1,2,16 over positions {0,9,10,15} (and all 16), with and without value, origins {0,1,1<<40}; tries: all histories of <= 3 inserts/deletes over 5 paths
+// scope: leaf/extension paths from {"", "1", "0a", "3a3a" (hex of ':'), 31 nibbles}, values from {nil, empty, "v", ":", "a:b::", "\x00\xff:\n", 300 bytes}, branches with every child subset of size 0,1,2,16 over positions {0,9,10,15} (and all 16), with and without value, origins {0,1,1<<40}, versions equal to the origin and bumped by 4/5/8 after creation; tries: all histories of <= 3 inserts/deletes over 5 paths
 
 import (
 	"bytes"
@@ -61,6 +61,9 @@ func TestGocvBoundedC14(t *testing.T) {
 		if !bytes.Equal(dec.Encode(), enc) {
 			fail("%s: decode(encode(n)) encodes differently", desc)
 		}
+		if dec.GetOrigin() != n.GetOrigin() || dec.GetVersion() != n.GetVersion() {
+			fail("%s: decode(encode(n)) has origin %d version %d, n has origin %d version %d", desc, dec.GetOrigin(), dec.GetVersion(), n.GetOrigin(), n.GetVersion())
+		}
 		cl := n.CloneNode()
 		if !bytes.Equal(cl.GetHashBytes(), h) || !bytes.Equal(cl.Encode(), enc) {
 			fail("%s: CloneNode changes hash or encoding", desc)
@@ -92,16 +95,26 @@ func TestGocvBoundedC14(t *testing.T) {
 	paths := []string{"", "1", "0a", "3a3a", "0123456789abcdef0123456789abcde"}
 	origins := []Sequence{0, 1, 1 << 40}
 	key := func(b byte) Key { return bytes.Repeat([]byte{b}, 32) }
+	// versions: a node's version is bumped after creation by the mark phase of pruning, so origin and
+	// version differ in stored nodes; both orders are exercised
+	bump := func(n Node, o Sequence, d int) string {
+		if d == 0 {
+			return ""
+		}
+		n.SetVersion(o + Sequence(d))
+		return fmt.Sprintf(", version %d", int64(o)+int64(d))
+	}
 	for _, o := range origins {
 		for vi, v := range values {
+			d := (vi % 3) * 4 // 0, 4, 8: some nodes keep version == origin
 			vn := NewValueNode()
 			vn.SetValue(v)
 			vn.SetOrigin(o)
-			check(fmt.Sprintf("value node (value #%d, origin %d)", vi, o), vn)
+			check(fmt.Sprintf("value node (value #%d, origin %d%s)", vi, o, bump(vn, o, d)), vn)
 			for _, p := range paths {
 				for _, pre := range []string{"", "0a"} {
 					ln := NewLeafNode(Path(pre), Path(p), o, v)
-					check(fmt.Sprintf("leaf (prefix %q, path %q, value #%d, origin %d)", pre, p, vi, o), ln)
+					check(fmt.Sprintf("leaf (prefix %q, path %q, value #%d, origin %d%s)", pre, p, vi, o, bump(ln, o, d)), ln)
 				}
 			}
 			positions := []int{0, 9, 10, 15}
@@ -113,7 +126,7 @@ func TestGocvBoundedC14(t *testing.T) {
 						fn.Children[pos] = key(byte(0x3a + pos)) // 0x3a = ':'
 					}
 				}
-				check(fmt.Sprintf("branch (children mask %04b over {0,9,10,15}, value #%d, origin %d)", mask, vi, o), fn)
+				check(fmt.Sprintf("branch (children mask %04b over {0,9,10,15}, value #%d, origin %d%s)", mask, vi, o, bump(fn, o, d)), fn)
 			}
 			all := NewFullNode(v)
 			all.SetOrigin(o)
@@ -128,7 +141,7 @@ func TestGocvBoundedC14(t *testing.T) {
 			}
 			en := NewExtensionNode(Path(p), key(0x3a))
 			en.SetOrigin(o)
-			check(fmt.Sprintf("extension (path %q, origin %d)", p, o), en)
+			check(fmt.Sprintf("extension (path %q, origin %d%s)", p, o, bump(en, o, 5)), en)
 		}
 	}
 	// whole tries: every history, read back from each store kind alone
